@@ -55,46 +55,63 @@ func IsValidatorError(err error) (*ValidationError, bool) {
 	return nil, false
 }
 
-// AddErrorToValidation joins two errors together into a ValidatorError
+// AddErrorToValidation joins two errors together into a ValidatorError.  Either argument may be nil (also a nil
+// pointer in a non-nil interface), a ValidationError (also wrapped), or any other error; the result holds every
+// message of both (nil when both are nil).  When e1 is (or wraps) a ValidationError the messages of e2 are added to it.
 func AddErrorToValidation(e1, e2 error) *ValidationError {
-	var e *ValidationError
-	// if e1 is nil and e2 is not, short circuit using e2
-	if (e1 == nil || reflect.ValueOf(e1).IsNil()) && e2 != nil {
-		if errors.As(e2, &e) {
-			// e1 is nil and e2 is a ValidationError, return e2
-			return e2.(*ValidationError)
+	if isNilError(e1) {
+		if isNilError(e2) {
+			return nil
 		}
-		// e1 is nil and e2 is an error.  Return new validation error using
-		return NewValidationError("", e2.Error(), false)
+		// e1 is nil: short circuit using e2
+		return toValidationError(e2)
+	}
+	ve := toValidationError(e1)
+	if isNilError(e2) {
+		return ve
+	}
+	if ve.errorMap == nil {
+		ve.errorMap = make(map[string][]string)
 	}
 
-	var ve *ValidationError
-	if errors.As(e1, &e) {
-		//nolint:errcheck // above line infers its castable
-		ve = e1.(*ValidationError)
-	} else {
-		ve = NewValidationError("", e1.Error(), false)
-	}
-
-	if errors.As(e2, &e) {
-		errMap := ve.GetErrorMap()
-		for key, msg := range e2.(*ValidationError).GetFlatErrorMap() {
-			addMsgs(errMap, key, msg...)
+	var other *ValidationError
+	if errors.As(e2, &other) && other != nil {
+		// the flat maps already carry the messages of e2's children under their dotted keys
+		for key, msg := range other.GetFlatErrorMap() {
+			addMsgs(ve.errorMap, key, msg...)
 		}
-		warnMap := ve.GetWarningMap()
-		for key, msg := range e2.(*ValidationError).GetFlatWarningMap() {
-			addMsgs(warnMap, key, msg...)
+		if ve.warningMap == nil {
+			ve.warningMap = make(map[string][]string)
 		}
-		childErrs := ve.GetChildErrors()
-		for key, ve := range e2.(*ValidationError).GetChildErrors() {
-			childErrs[key] = ve
+		for key, msg := range other.GetFlatWarningMap() {
+			addMsgs(ve.warningMap, key, msg...)
 		}
 	} else {
-		errMap := ve.GetErrorMap()
-		addMsgs(errMap, "", e2.Error())
+		addMsgs(ve.errorMap, "", e2.Error())
 	}
 
 	return ve
+}
+
+// toValidationError returns the ValidationError that err is or wraps, or a new one carrying err's message
+func toValidationError(err error) *ValidationError {
+	var ve *ValidationError
+	if errors.As(err, &ve) && ve != nil {
+		return ve
+	}
+	return NewValidationError("", err.Error(), false)
+}
+
+// isNilError reports whether err is nil or holds a nil pointer (map, slice, ...)
+func isNilError(err error) bool {
+	if err == nil {
+		return true
+	}
+	switch v := reflect.ValueOf(err); v.Kind() {
+	case reflect.Ptr, reflect.Map, reflect.Slice, reflect.Func, reflect.Chan, reflect.Interface:
+		return v.IsNil()
+	}
+	return false
 }
 
 // Error returns the error messages in a single string
